@@ -344,10 +344,16 @@ def read_trace_cases(trace_path, wanted):
 # findings, replay files, evidence
 
 def load_findings():
+    out = []
     p = os.path.join(ROOT, "known_findings.json")
-    if not os.path.exists(p):
-        return []
-    return json.load(open(p))["findings"]
+    if os.path.exists(p):
+        out += json.load(open(p))["findings"]
+    kd = os.path.join(ROOT, "known")
+    if os.path.isdir(kd):
+        for fn in sorted(os.listdir(kd)):
+            if fn.startswith("findings-") and fn.endswith(".json"):
+                out += json.load(open(os.path.join(kd, fn)))["findings"]
+    return out
 
 
 def write_replay(pid, group, desc, invariant, events, extra=None):
